@@ -14,9 +14,11 @@ CASES = {
 }
 
 
-def step(case, k, repeat, with_data):
+def step(case, k, repeat, with_data, ek=0):
+    """ek: what the failing backend call raises (index into SpyPathIO.FAIL_KINDS: EIO, a timeout, ValueError, ENOENT, RuntimeError)"""
     hb.KEY = ""
     k = hb.conc(k, 1, 40)
+    ek = hb.conc(ek, 0, len(hb.SpyPathIO.FAIL_KINDS) - 1)
     verb = case.split("_")[0]
     user = aioftp.User("bob", None, base_path="/srv")
     server = st.make_server([user], block_size=2)
@@ -32,7 +34,7 @@ def step(case, k, repeat, with_data):
 
     def arm(res):
         # arm the fault right before the command under test is delivered (set-up traffic is not counted)
-        hb.SpyPathIO.reset(fail_at=k, fail_repeat=repeat)
+        hb.SpyPathIO.reset(fail_at=k, fail_repeat=repeat, fail_kind=ek)
 
     def disarm(res):
         armed["calls"] = hb.SpyPathIO.calls
